@@ -146,6 +146,9 @@ func runUnfold(c *Case, tr *Trace) {
 	res := map[string]interface{}{"T": t, "v0": d0, "stage": "", "err": "", "errat": 0}
 	tr.Extra = res
 	un, err := gotype.NewUnfolder(nil, userUnfolders)
+	if kc, ok := c.Sub["keycache"].(float64); ok && err == nil {
+		un.EnableKeyCache(int(kc))
+	}
 	if err == nil {
 		err = un.SetTarget(q.Interface())
 	}
@@ -664,6 +667,9 @@ func runConc(c *Case, tr *Trace) {
 	// codec pipelines: TLC-enumerated event streams (sub.streams) through every encoder and back through the
 	// format's parser, each on NEW instances; sequential reference first
 	cstreams := subEvents(c.Sub["streams"])
+	type ckey struct{ s, f int }
+	var sharedMu sync.Mutex
+	sharedIn := map[ckey][]byte{}
 	codec := func(si, fi int) (string, string) {
 		api := formats[fmts[fi]]
 		sk := &sink{}
@@ -673,14 +679,22 @@ func runConc(c *Case, tr *Trace) {
 				return "", "encode: " + err.Error()
 			}
 		}
+		// the bytes are parsed from a buffer that every goroutine handling this (stream, format) shares:
+		// independent parsers may read the same input, none of them may write to it
+		sharedMu.Lock()
+		in, ok := sharedIn[ckey{si, fi}]
+		if !ok {
+			in = exact(sk.all)
+			sharedIn[ckey{si, fi}] = in
+		}
+		sharedMu.Unlock()
 		rec := &RefRecorder{}
-		if err := api.parse(exact(sk.all), rec); err != nil {
+		if err := api.parse(in, rec); err != nil {
 			return string(sk.all), "parse: " + err.Error()
 		}
 		eb, _ := json.Marshal(rec.Events)
 		return string(sk.all) + "|" + string(eb), ""
 	}
-	type ckey struct{ s, f int }
 	wantCodec := map[ckey][2]string{}
 	for si := range cstreams {
 		for fi := range fmts {
